@@ -72,6 +72,10 @@ class AsmData:
                         "comment": "  ; don't \"quote\" 5/8 of it", "bounded": "2 symbolic characters + trailing comment holding every delimiter"})
         for i in range(len(FCC_STRINGS)):
             out.append({"id": "FCC/concrete/%d" % i, "kind": "fcc-concrete", "i": i, "bounded": "one concrete string"})
+        # every delimiter choice: each punctuation character of printable ASCII as the delimiter, a few bodies each
+        for code in range(33, 127):
+            if not chr(code).isalnum():
+                out.append({"id": "FCC/delim/%d" % code, "kind": "fcc-delim", "code": code, "bounded": "delimiter %r, 6 bodies" % chr(code)})
         for k in ("EQU", "ORG", "SETDP", "NAM", "END", "END-op", "INCLUDE", "SET"):
             out.append({"id": "silent/%s" % k, "kind": "silent", "dir": k})
         for d in ("FCB", "FDB", "FCC", "RMB", "ORG", "EQU"):
@@ -291,6 +295,21 @@ class AsmData:
         for b, c in zip(st.bytes, chars):
             ok = ok & (b == (ord(c) if native else _code(c)))
         env.ensure("C05:fcc-bytes", ok, ("C05",), sig("value-mismatch"), split=sp)
+
+    def k_fcc_delim(self, env, cell, native):
+        d = chr(cell["code"])
+        for body in ("HELLO", "A,B", "X Y", "", "1+2", "a", "two  gaps"):
+            if d in body:
+                continue
+            lines = [" FCB $AA\n", " FCC %s%s%s\n" % (d, body, d), " FCB $55\n"]
+            run = assemble(env, lines)
+            sig = lambda what, body=body: (lambda: "FCC-delim:%d:%s:%r" % (cell["code"], what, body)) if native else None
+            if not self._common(env, run, sig):
+                continue
+            if run.status != "ok":
+                env.fail("C05:accepted", ("C05",), sig("rejected:%s" % run.exc_class))
+                continue
+            env.ensure("C05:fcc-bytes", list(run.image) == [0xAA] + [ord(c) for c in body] + [0x55], ("C05",), sig("mismatch"))
 
     def k_fcc_concrete(self, env, cell, native):
         for s in [FCC_STRINGS[cell["i"]]]:
